@@ -604,7 +604,7 @@ def enc_feats(d):
 # True while Retry.enter compares the *declared* source name (relative for transitions declared inside a
 # parent's state dict) with the scoped state name — known finding F-C19-retry-local-source.  The Lean model is
 # fed what the code reads.  When the fix is adopted: set to False (the model is then fed the resolved name).
-RETRY_SEES_RAW_SOURCE = True
+RETRY_SEES_RAW_SOURCE = False
 
 
 def resolve_source(d, raw, pre_state):
